@@ -489,6 +489,22 @@ def run(prog: Program, chk: Check):
     G.decide(ci == cc_ and len(ci) >= 12, fkey(clr, "resets-every-table"), where(clr), f"clear() resets the same {len(ci)} containers __init__ creates",
              f"clear() and __init__ disagree on containers: only in __init__ {sorted(ci - cc_)}, only in clear {sorted(cc_ - ci)}")
     cls_level = [k for k, v in par.class_consts.items() if isinstance(v, (ast.Dict, ast.List, ast.Set)) or (isinstance(v, ast.Call) and norm(v.func) in ("dict", "list", "set", "defaultdict"))]
+    # a class-level table that is only ever read (a constant mapping) is shared harmlessly; one that the parser writes to
+    # (or that shadows a registry) is state surviving from one Parser to the next
+    MUTATORS_ = {"append", "extend", "insert", "add", "update", "setdefault", "pop", "popitem", "clear", "remove", "discard", "sort"}
+
+    def written(k):
+        for f_ in m.functions.values():
+            for n_ in walk_local(f_.node):
+                if isinstance(n_, ast.Call) and isinstance(n_.func, ast.Attribute) and n_.func.attr in MUTATORS_ and (path_of(n_.func.value) or "").split(".")[-1] == k:
+                    return True
+                if isinstance(n_, (ast.Assign, ast.AugAssign, ast.Delete)):
+                    for t_ in (n_.targets if isinstance(n_, (ast.Assign, ast.Delete)) else [n_.target]):
+                        if isinstance(t_, ast.Subscript) and (path_of(t_.value) or "").split(".")[-1] == k:
+                            return True
+        return False
+
+    cls_level = [k for k in cls_level if k in ci or k in cc_ or written(k)]
     G.decide(not cls_level, f"{PAR}::Parser|no-class-level-registry", f"{m.rel}:{par.node.lineno}", "no class-level (shared) container", f"class-level containers shared between Parser instances: {cls_level}")
     pa = prog.func(PAR, "Parser.parse")
     okp = False
